@@ -24,7 +24,8 @@
 //! Kept out of the generated histories because they belong to other properties: on a PRIMARY KEY table a
 //! re-executed prepared INSERT with a key below an earlier one leaves the pk index unsorted (WHERE k = x then
 //! misses rows), and `SELECT c, k .. ORDER BY k` returns the columns in table order; INSERTs after a reopen
-//! mostly fail ("key already exists", the row counter restarts at 1) - the model knows that one.
+//! mostly fail ("key already exists", the row counter restarts at 1) - the model knows that one - but a
+//! re-executed prepared INSERT after a reopen appends its row key unchecked (duplicate row keys in the table B-tree).
 use std::io::Write as _;
 use std::panic::AssertUnwindSafe;
 use turdb::storage::toast as ts;
@@ -765,7 +766,7 @@ fn histories(rng: &mut Rng, thorough: bool) -> Vec<(String, &'static str)> {
     }
 
     // ---- text / blob: the size table, by INSERT and by UPDATE, each path
-    let reps = if thorough { 8 } else { 1 };
+    let reps = if thorough { 5 } else { 1 };
     for _ in 0..reps {
         for &size in SIZES.iter() {
             for blob in [false, true] {
@@ -797,7 +798,7 @@ fn histories(rng: &mut Rng, thorough: bool) -> Vec<(String, &'static str)> {
     // very large values
     let mib = 1usize << 20;
     let bigs: Vec<(bool, usize, char, bool)> = if thorough {
-        vec![(false, mib, 'L', true), (true, mib, 'P', true), (false, mib + 1, 'S', false), (true, 3 * mib + 17, 'L', false), (false, 40001, 'P', true), (true, 40000, 'S', false), (false, 5 * mib, 'P', true)]
+        vec![(false, mib, 'L', true), (true, mib, 'P', true), (false, mib + 1, 'S', false), (true, 2 * mib + 17, 'L', false), (false, 40001, 'P', true), (true, 40000, 'S', false), (false, 2 * mib, 'P', true)]
     } else { vec![(false, mib, 'L', true), (true, mib + 1, 'P', false), (false, 40001, 'S', false)] };
     for (blob, size, p, upd) in bigs {
         let v = var_token(rng, blob, size);
@@ -861,7 +862,7 @@ fn histories(rng: &mut Rng, thorough: bool) -> Vec<(String, &'static str)> {
     }
 
     // ---- random histories
-    let nr = if thorough { 1500 } else { 160 };
+    let nr = if thorough { 1200 } else { 160 };
     for _ in 0..nr {
         let blob = rng.chance(2, 5);
         let pk = rng.chance(1, 3);
@@ -874,7 +875,13 @@ fn histories(rng: &mut Rng, thorough: bool) -> Vec<(String, &'static str)> {
         let rsize = |r: &mut Rng| -> usize { match r.below(10) { 0..=3 => r.below(40) as usize, 4..=6 => *r.pick(&[999usize, 1000, 1001, 1002, 1500]), 7 => *r.pick(&[3999usize, 4000, 4001, 8001]), 8 => 4000 + r.below(9000) as usize, _ => r.below(1300) as usize } };
         for _ in 0..nops {
             match rng.below(10) {
-                0..=3 if !reopened || rng.chance(1, 8) => { let k = if pk && rng.chance(1, 2) { next_k + 3 } else { next_k }; next_k = k + 1; live.push(k); let sz = rsize(rng); ops.push(format!("I{}:{}={}", pick_path(rng), k, var_token(rng, blob, sz))); }
+                0..=3 if !reopened || rng.chance(1, 8) => {
+                    let k = if pk && rng.chance(1, 2) { next_k + 3 } else { next_k }; next_k = k + 1; live.push(k); let sz = rsize(rng);
+                    // after a reopen only the literal / parameter paths: a re-executed prepared INSERT appends its row key
+                    // unchecked (BTree::insert_append) and the restarted row counter then duplicates row keys (not this property)
+                    let p = if reopened { *rng.pick(&['L', 'P']) } else { pick_path(rng) };
+                    ops.push(format!("I{}:{}={}", p, k, var_token(rng, blob, sz)));
+                }
                 0..=6 if !live.is_empty() => { let k = *rng.pick(&live); let sz = rsize(rng); ops.push(format!("U{}:{}={}", pick_path(rng), k, var_token(rng, blob, sz))); }
                 7 if !live.is_empty() => { let i = rng.below(live.len() as u64) as usize; let k = live.remove(i); ops.push(format!("D:{}", k)); }
                 8 => { ops.push("X".into()); reopened = true; }
@@ -974,10 +981,11 @@ fn gen(a: &Args) {
             let known = h.ops.iter().any(|op| matches!(op, Op::Ins(_, _, v) | Op::Upd(_, _, v) if is_fake_ptr(v) || is_utf8_blob(v)));
             if nontrivial(&h) { n_big += 1; }
             if known || kind == "collision" { n_known += 1; }
+            if kind == "huge" && in_shard > 0 { w.flush(); in_shard = 0; }   // a shard of its own
             w.push(hist_term(&h, &jsonbs, &terms), show_hist(&h), nontrivial(&h), kind);
             // histories are the expensive cases for coqc: short shards, evaluated in parallel
             in_shard += 1;
-            if in_shard >= 32 { w.flush(); in_shard = 0; }
+            if in_shard >= 32 || kind == "huge" { w.flush(); in_shard = 0; }
         } else if let Some(t) = unit_case(&l) {
             if in_shard > 0 { w.flush(); in_shard = 0; }
             w.push(t, l.clone(), false, kind);
